@@ -142,6 +142,10 @@ func sprintfArgs(c *ssa.Call) string {
 }
 
 func checkC11(p *load.Program, r *kit.Report) {
+	importRules(p, r, "C09", "Save consolidates first: the branches it writes are re-based through Consolidate, Truncate and Connect, and a side branch is re-connected (and so kept in the saved index) only if the hash→height labels those functions write are the positional heights", 3,
+		func(o *kit.Obligation) bool {
+			return strings.Contains(o.Construct, "Branch.Consolidate/") || strings.Contains(o.Construct, "Branch.Truncate/") || strings.Contains(o.Construct, "Branch.Connect/")
+		}, "HEIGHT-LABEL")
 	r.Rule("CONSOLIDATE-IDENTITY", "the branch Consolidate builds has the parent, firstHeader, parentHeight and offset of the branch it replaces (other)", 1)
 	checkConsolidateIdentity(p, r, "CONSOLIDATE-IDENTITY")
 	importRules(p, r, "C10", "Save consolidates first and writes the index from the rebuilt branch list: every branch except the old root and the old tip must be reconnected, or it is missing from what Load restores", 1,
